@@ -251,7 +251,7 @@ def main(argv):
         if os.environ.get('VERIF_WRITE_EXPECTED') == '1' and 'VERIF_REPO' not in os.environ:
             os.makedirs(EXPECTED_DIR, exist_ok=True)
             allx = {rep['task']: sorted(set(norm_name(o['obligation']) for o in rep['results']
-                                                    if o['kind'] in EXPECTED_KINDS and o['status'] == 'unsat'))
+                                                    if o['kind'] in EXPECTED_KINDS and o['status'] == 'unsat' and o.get('detail') != 'path infeasible'))
                           for rep in ded if not rep.get('fault')}
             json.dump(allx, open(os.path.join(EXPECTED_DIR, prop + '.json'), 'w'), indent=0, sort_keys=True)
 
